@@ -550,6 +550,9 @@ impl ErasedNode for Node {
         debug_assert!(!self.is_in_recompute_heap());
         debug_assert!(self.is_necessary());
         if self.is_stale() {
+            // our input changed while we were not one of its parents, so nobody compared the
+            // old and new projections: treat it as changed
+            self.map_ref_projection_unknown();
             state.recompute_heap.insert(self.packed());
         }
         if let Some(Kind::Expert(expert)) = self.kind() {
@@ -637,7 +640,7 @@ impl ErasedNode for Node {
             Kind::MapRef(mapref) => {
                 // don't run child_changed on our parents, because we already did that in OUR child_changed.
                 self.value_opt.replace(None);
-                self.maybe_change_value_manual(None, mapref.did_change.get(), false, state)
+                self.maybe_change_value_manual(None, mapref.did_change.replace(false), false, state)
             }
             Kind::MapWithOld(map) => {
                 let input = map.input.value_as_any().unwrap();
@@ -1290,7 +1293,9 @@ impl ErasedNode for Node {
                 let did_change = self_old.map_or(true, |old| {
                     !self.cutoff.borrow_mut().should_cutoff(old, self_new)
                 });
-                mapref.did_change.set(did_change);
+                // sticky until our own recompute consumes it: we may have been re-linked (flag set by
+                // became_necessary) and see a second, projection-preserving change in the same cycle
+                mapref.did_change.set(mapref.did_change.get() || did_change);
                 // now we propagate to parent
                 // (but first, set the only_in_debug stuff & recomputed_at <- t.stabilisation_num)
                 let pci = self.parent_child_indices.borrow();
@@ -1852,6 +1857,21 @@ impl Node {
 
     fn as_parent_dyn_ref(&self) -> &Node {
         self
+    }
+
+    /// A `map_ref` node learns whether its projection changed from `child_changed`, which reaches it
+    /// (and, through it, the `map_ref` nodes reading from it) only while it is linked to its input.
+    /// When it is re-linked while stale, it and the `map_ref` parents that have just linked to it
+    /// must assume the projection changed.
+    fn map_ref_projection_unknown(&self) {
+        if let Some(Kind::MapRef(mapref)) = self.kind() {
+            mapref.did_change.set(true);
+            for parent in self.parents.borrow().iter() {
+                if let Some(parent) = parent.upgrade() {
+                    parent.map_ref_projection_unknown();
+                }
+            }
+        }
     }
 
     fn remove_children(&self, state: &State) {
